@@ -98,9 +98,18 @@ class _Interp:
             return frozenset([OTHER])
         if isinstance(n, ast.Call):
             return self.call(n, env)
-        if isinstance(n, (ast.BoolOp, ast.Compare, ast.UnaryOp, ast.BinOp, ast.IfExp, ast.JoinedStr, ast.Tuple, ast.List,
+        if isinstance(n, ast.IfExp):          # `a if isinstance(x, File) else b`: narrowed like the statement form
+            et, ef, live_t, live_f = self.narrow(n.test, env)
+            vals: frozenset = frozenset()
+            if live_t:
+                vals |= self.ev(n.body, et)
+            if live_f:
+                vals |= self.ev(n.orelse, ef)
+            return vals or frozenset([OTHER])
+        if isinstance(n, (ast.BoolOp, ast.Compare, ast.UnaryOp, ast.BinOp, ast.JoinedStr, ast.Tuple, ast.List,
                           ast.Subscript, ast.ListComp, ast.GeneratorExp, ast.Starred, ast.FormattedValue, ast.Set,
-                          ast.Dict, ast.Yield, ast.comprehension, ast.Slice)):
+                          ast.Dict, ast.Yield, ast.YieldFrom, ast.Await, ast.SetComp, ast.DictComp, ast.Lambda, ast.NamedExpr,
+                          ast.comprehension, ast.Slice)):
             for ch in ast.iter_child_nodes(n):
                 if isinstance(ch, (ast.expr, ast.comprehension)):
                     self.ev(ch, env)
@@ -299,6 +308,24 @@ class _Interp:
             return (t.args[0].id, neg)
         return None
 
+    def narrow(self, test: ast.AST, env: dict) -> tuple[dict, dict, bool, bool]:
+        """Environments of the two outcomes of a test and whether each outcome is possible; `isinstance(x, File)` (also
+        negated) splits the alternatives of x, any other test is evaluated for its accesses and splits nothing."""
+        nar = self.isinstance_file(test)
+        et, ef = dict(env), dict(env)
+        if nar is None:
+            self.ev(test, env)
+            return et, ef, True, True
+        var, neg = nar
+        cur = env.get(var, frozenset([OTHER]))
+        yes, no = frozenset(v for v in cur if v == HANDLE), frozenset(v for v in cur if v != HANDLE)
+        if OTHER in cur:
+            yes = frozenset([HANDLE])
+        if neg:
+            yes, no = no, yes
+        et[var], ef[var] = yes, no
+        return et, ef, bool(yes), bool(no)
+
     def block(self, stmts: list[ast.stmt], env: dict | None) -> dict | None:
         for st in stmts:
             if env is None:
@@ -348,21 +375,9 @@ class _Interp:
         if isinstance(st, (ast.Pass, ast.Continue, ast.Break, ast.Global, ast.Nonlocal, ast.Import, ast.ImportFrom)):
             return env
         if isinstance(st, ast.If):
-            nar = self.isinstance_file(st.test)
-            et, ef = dict(env), dict(env)
-            if nar is not None:
-                var, neg = nar
-                cur = env.get(var, frozenset([OTHER]))
-                yes, no = frozenset(v for v in cur if v == HANDLE), frozenset(v for v in cur if v != HANDLE)
-                if OTHER in cur:
-                    yes = frozenset([HANDLE])
-                if neg:
-                    yes, no = no, yes
-                et[var], ef[var] = yes, no
-            else:
-                self.ev(st.test, env)
-            out_t = self.block(st.body, et) if not (nar and not et[nar[0]]) else None
-            out_f = self.block(st.orelse, ef) if not (nar and not ef[nar[0]]) else None
+            et, ef, live_t, live_f = self.narrow(st.test, env)
+            out_t = self.block(st.body, et) if live_t else None
+            out_f = self.block(st.orelse, ef) if live_f else None
             return self.merge(out_t, out_f)
         if isinstance(st, ast.For):
             it = st.iter
